@@ -1240,3 +1240,81 @@ def r17_converted_pixels_get_the_alpha_mask(ck, P, rid='C10-R17'):
                 ck.violation(R, f.name, 'converted pixel at %s' % c.loc(), '%s uses the result of convert_pixel at %s without or-ing it with the alpha mask of the format: for x8r8g8b8 the undefined x byte, for r5g6b5 zero, is taken as the alpha of that sample, while the other branches of the same fetcher (and the general fetcher) deliver such pixels opaque' % (f.name, c.loc()), c.loc())
     if n == 0:
         raise AnalysisBroken('%s: no call through a convert_pixel callback parameter found' % rid)
+
+
+def r18_yuv_clamps_are_signed(ck, P, rid='C10-R18'):
+    """Sibling agreement + contradiction: the YUV readers compute each colour channel as a signed sum of products (the chroma terms are
+    negative for half of the range) and clamp it from below at 0.  The clamp only exists if the comparison is signed: on an unsigned
+    value `r >= 0` is always true, and an underflowing channel saturates to 255 instead of 0."""
+    R = ck.rule(rid, 'in every reader that converts YUV to RGB (the functions multiplying by the luma coefficient 0x012b27), each of the three channel sums is compared with 0 by a signed comparison before it is shifted into place - three signed lower clamps per reader, the same in the scanline and the single-pixel readers of yuy2 and yv12', floor=8)
+    n = 0
+    for un in ('pixman-access.c', 'pixman-access-accessors.c'):
+        u = P.units.get(un)
+        if u is None:
+            continue
+        for fn, f in sorted(u.functions.items()):
+            lum = [x for x in f.insts() if x.op == 'mul' and any(a[0] == 'c' and int(a[1]) == 0x012b27 for a in x.a)]
+            if len(lum) < 3:
+                continue
+            n += 1; ck.saw(f)
+            def is_sum(o, d=0):
+                y = f.v(o) if o[0] == 'v' else None
+                if y is None or d > 6:
+                    return False
+                if y in lum:
+                    return True
+                if y.op in ('add', 'sub', 'phi'):
+                    return any(is_sum(a, d + 1) for a in y.a)
+                return False
+            signed = []; unsigned_ = []
+            for x in f.insts():
+                if x.op != 'icmp' or not any(a[0] == 'c' and int(a[1]) in (0, -1) for a in x.a):
+                    continue
+                other = [a for a in x.a if not (a[0] == 'c' and int(a[1]) in (0, -1))]
+                if not other or not is_sum(other[0]):
+                    continue
+                (signed if x.pred in ('sge', 'sgt', 'slt', 'sle') else unsigned_).append(x)
+            where = '%s/%s' % (un, fn)
+            if len(signed) >= 3 and not unsigned_:
+                ck.ok(R, where, '%d signed lower clamps' % len(signed))
+            else:
+                at = (unsigned_[0] if unsigned_ else lum[0]).loc()
+                ck.violation(R, fn, 'lower clamp of the colour channels', '%s has %d signed comparison(s) of its channel sums with 0 and %d unsigned one(s), where its siblings have three signed ones: a channel that underflows (saturated primaries, Y below 16) is not clamped to 0 but taken for a huge value and saturates to 255, and the single-pixel and scanline readers disagree' % (fn, len(signed), len(unsigned_)), at)
+    if n == 0:
+        raise AnalysisBroken('%s: no YUV reader found' % rid)
+
+
+def r19_sizeless_formats_expand_as_argb(ck, P, rid='C10-R19'):
+    """Partial evaluation over the format enumeration: the fetchers of every format without channel sizes (indexed, gray, YUV: the low 16
+    bits of the code are 0) deliver a8r8g8b8, and the float widening reads the channel layout out of the format code.  For each such
+    code in enum pixman_format_code_t, the path through pixman_expand_to_float must replace the format by a8r8g8b8."""
+    from . import common
+    R = ck.rule(rid, 'for every code of enum pixman_format_code_t whose channel-size fields are all 0, partial evaluation of pixman_expand_to_float with that format takes the edge that substitutes PIXMAN_a8r8g8b8 and never the one that keeps the caller\'s code: otherwise all four channel masks are 0 and every pixel of an indexed, gray or YUV image widens to opaque black in the float pipeline while the 8-bit pipeline shows the picture', floor=8)
+    f = P.fn('pixman_expand_to_float')
+    if f is None:
+        raise AnalysisBroken('%s: pixman_expand_to_float not found' % rid)
+    E = P.enum('pixman_format_code_t')
+    argb = E.get('PIXMAN_a8r8g8b8')
+    phi = None
+    for x in f.insts():
+        if x.op == 'phi' and any(a[0] == 'c' and (int(a[1]) & 0xffffffff) == argb for a in x.a) and any(a[0] == 'a' for a in x.a):
+            phi = x
+    if phi is None or argb is None:
+        raise AnalysisBroken('%s: no merge of the format parameter with PIXMAN_a8r8g8b8 in pixman_expand_to_float' % rid)
+    ck.saw(f)
+    k = [a for a in phi.a if a[0] == 'a'][0][1]
+    keep = {(bb, phi.bb.id) for a, bb in zip(phi.a, phi.d['bb']) if a[0] == 'a'}
+    n = 0
+    for name, code in sorted(E.items()):
+        if code & 0xffff or code == 0:
+            continue
+        n += 1
+        taken = set()
+        common.reach_under(f, lambda x: None, set(), args={k: code}, on_edge=lambda a, b, t: taken.add((a, b)))
+        where = 'pixman_expand_to_float: %s' % name
+        if taken & keep:
+            ck.violation(R, f.name, 'format %s' % name, 'pixman_expand_to_float keeps the format code %s (no channel sizes) instead of substituting a8r8g8b8: all channel masks are 0, so every pixel of such an image becomes (alpha 1, colour 0) in the float pipeline - opaque black - although its fetcher delivered a8r8g8b8 pixels and the 8-bit pipeline shows them' % name, phi.loc())
+        else:
+            ck.ok(R, where, 'expanded as a8r8g8b8')
+    if n == 0:
+        raise AnalysisBroken('%s: the format enumeration has no code without channel sizes' % rid)
